@@ -242,6 +242,7 @@ class WriterExec:
         """returns (env, returned_terms_or_None, flow) flow in {None,'break','continue'}"""
         for i, st in enumerate(stmts):
             if isinstance(st, ast.Return):
+                self.last_env = env
                 return env, (self.sym(st.value, env) if st.value is not None else []), None
             if isinstance(st, ast.Raise):
                 return env, [("raise",)], None
